@@ -690,7 +690,8 @@ func loadInlineObjectFromFile(
 
 	cachedView, cacheExists := scope.Tx.CachedViews.Load(fileInfo.IdentifiedPath())
 
-	if cacheExists {
+	if cacheExists && cachedView.FileInfo.Handler != nil {
+		// The table is held for update: its file can only be read through the handler that holds the lock.
 		fp = cachedView.FileInfo.Handler.File()
 	} else {
 		h, e := scope.Tx.FileContainer.CreateHandlerForRead(ctx, fileInfo.Path, scope.Tx.WaitTimeout, scope.Tx.RetryDelay)
